@@ -141,7 +141,9 @@ func verifC13Step(n int) {
 	}
 	// a file the manifest no longer lists (its digest moved to another candidate) may still exist
 	if verifNondetBool("orphan_file") {
-		head.put("out/"+verifPoolNames[2-ci]+".binarypb", []byte{0xD0, 0})
+		if head.find("out/"+verifPoolNames[2-ci]+".binarypb") < 0 {
+			head.put("out/"+verifPoolNames[2-ci]+".binarypb", []byte{0xD0, 0})
+		}
 		if head.find("out/"+cand+".binarypb") < 0 {
 			head.put("out/"+cand+".binarypb", []byte{0xD0, 0})
 		}
